@@ -11,8 +11,10 @@ from .ref import osu as ref_osu
 # ---------------------------------------------------------------- osu
 
 OSU_STR = ["Song", "A B", "x", "Title 1", "Caravan", "Escapes!", "q-w_e", "a:b", "Re:Start", "12:30 am", "x: y :z", ":lead", "tail:"]
-OSU_UNI = ["Song", "曲", "ｆｏｏ", "Ünïcode", "A:B", "日本語 タイトル", "名前:サブ", "ÀÉÎõü", "한국어", "→♪←", "emoji 🎵 x"]
-OSU_FILES = ["", "", "", "a.wav", "hit.ogg", "clap1.wav", "x y.wav", "ドラム.wav"]
+OSU_UNI = ["Song", "曲", "ｆｏｏ", "Ünïcode", "A:B", "日本語 タイトル", "名前:サブ", "ÀÉÎõü", "한국어", "→♪←", "emoji 🎵 x",
+           # separators of str.splitlines() that are ordinary characters of a value in the format
+           "星\u2028空", "音\x85楽", "a\x0cb", "Vol.1\u2029Vol.2", "v\x1cw\x1dx\x1ey", "tab\x0bv"]
+OSU_FILES = ["", "", "", "a.wav", "hit.ogg", "clap1.wav", "x y.wav", "ドラム.wav", "s\u2028x.wav", "n\x85l.ogg", "f\x0cf.wav"]
 BPM_CODES = ["500", "333.333333333333", "250", "400", "375.0", "1000", "461.538461538462", "300", "666.666666666667", "285.714285714286", "200"]
 SV_CODES = ["-100", "-50", "-200", "-133.333333333333", "-10", "-1000", "-66.6666666666667", "-125", "-80", "-100.0"]
 TIMES_INT = [0, 1, -1, 100, 250, 500, 1000, 1500, 2000, 333, -250, 1000000, 12345, 7, 60000, 9999999, -5000]
@@ -84,7 +86,8 @@ def gen_osu_doc(r: random.Random, hi: int = 10, keys: int | None = None) -> dict
         timeline_zoom=r.choice([1, 0.3, 2.5, 1.7]),
         title=r.choice(OSU_STR), title_unicode=r.choice(OSU_UNI), artist=r.choice(OSU_STR), artist_unicode=r.choice(OSU_UNI),
         creator=r.choice(OSU_STR + OSU_UNI), version=r.choice(["Easy", "Hard", "x y", "7K", "To:", "A:B:C", "難:易"]),
-        source=r.choice(["", "src", "a:b", "出典"]), tags=list(r.choice([[], ["a"], ["a", "b"], ["x:y", "日本"], ["t1", "t2", "t3"]])),
+        source=r.choice(["", "src", "a:b", "出典", "Vol.1\u2029Vol.2"]),
+        tags=list(r.choice([[], ["a"], ["a", "b"], ["x:y", "日本"], ["t1", "t2", "t3"], ["al", "be\u2028ta", "ga"], ["n\x85l", "f\x0cf"]])),
         beatmap_id=r.choice([0, 12345, 999999]), beatmap_set_id=r.choice([-1, 5555, 123]),
         hp_drain_rate=r.choice([5, 8, 7.5, 0, 10]), circle_size=keys, overall_difficulty=r.choice([5, 8, 8.5, 0, 10]),
         approach_rate=r.choice([5, 9]), slider_multiplier=r.choice([1.4, 1, 3.6]), slider_tick_rate=r.choice([1, 2, 4]),
@@ -105,7 +108,9 @@ def gen_osu_fmt(r: random.Random, knobs: dict) -> dict:
 
 QUA_STR = ["Song", "A B", "x", "a: b", "# not a comment", "- dash", "[x]", "{y}", "it's", 'say "hi"', " lead", "trail ", "yes", "no", "null",
            "~", "123", "1.5", "true", "曲", "Ünï", "a,b", "k: v: w", "@at", "`tick`", "%pct", "!bang", "*star", "&amp", "|pipe", ">gt", "",
-           "multi  space", "emoji 🎵", "0x1F", "1e3", ".inf", "2021-01-01"]
+           "multi  space", "emoji 🎵", "0x1F", "1e3", ".inf", "2021-01-01",
+           # line breaks inside a value: YAML writes them as blank lines of a quoted scalar / literal block
+           "first paragraph\nsecond line\n\nafter an empty line", "ends with a break\n", "two\nlines", "\nleading break", "a\n\n\nb"]
 
 
 def gen_qua_doc(r: random.Random, hi: int = 10) -> dict:
@@ -185,7 +190,7 @@ def gen_qua_fmt(r: random.Random, knobs: dict) -> dict:
 
 SM_STR = ["Song", "A B", "x", "Title 1", "Caravan", "Escapes!", "q-w_e", "曲", "Ünï code", "a.b", "(x)", "[y]", "100%", "a=b", "a,b", ""]
 SM_TYPES = [("dance-single", 4), ("dance-single", 4), ("dance-double", 8), ("dance-solo", 6), ("dance-threepanel", 3), ("kb7-single", 7),
-            ("dance-couple", 4), ("dance-routine", 8)]
+            ("dance-couple", 8), ("dance-routine", 8)]
 SM_ROWS = [4, 4, 8, 8, 12, 16, 16, 24, 32, 48, 64, 96, 192, 20, 28, 36]
 SM_BPM_STR = ["120.000", "60.000", "90.000", "150.000", "173.500", "180.000", "200.000", "240.000", "87.250", "300.000", "30.000", "128", "99.999"]
 SM_DIFFS = ["Beginner", "Easy", "Medium", "Hard", "Challenge", "Edit"]
@@ -256,7 +261,7 @@ def gen_sm_doc(r: random.Random, hi: int = 4, pipeline: dict | None = None) -> d
     for _ in range(n_charts):
         ty, keys = r.choice(SM_TYPES)
         if pipeline:
-            ty, keys = r.choice([(t, k) for t, k in SM_TYPES if k in pipeline["keys"] and t in ("dance-single", "dance-double", "dance-solo", "dance-threepanel", "kb7-single")])
+            ty, keys = r.choice([(t, k) for t, k in SM_TYPES if k in pipeline["keys"] and t in ("dance-single", "dance-double", "dance-solo", "dance-threepanel", "kb7-single", "dance-couple", "dance-routine")])
         charts.append(dict(type=ty, desc=r.choice(["", "d", "me", "K. Ward"]), diff=r.choice(SM_DIFFS), meter=r.choice([1, 5, 12, 20]),
                            radar=r.choice(["0,0,0,0,0", "0.5,0.25,0,1,0.125", "0.000,0.000,0.000,0.000,0.000"]),
                            measures=gen_sm_notes(r, keys, n_measures, symbols=["1", "1", "1", "2"] if pipeline else None, last_col=bool(pipeline))))
@@ -598,13 +603,16 @@ def gen_ojn_doc(r: random.Random, hi: int = 6, pipeline: dict | None = None) -> 
         levels = [gen_ojn_level(r, n_meas, hi) if r.random() < 0.9 else [] for _ in range(3)]
     header = dict(song_id=r.choice([1, 1000, 31337]), genre=r.randrange(11), bpm=r.choice(OJN_BPMS[:8]),
                   level=[r.randint(1, 40), r.randint(1, 60), r.randint(1, 99), 0], measure_count=[n_meas + 1] * 3,
-                  title=r.choice(ASCII_T), artist=r.choice(ASCII_T), creator=r.choice(["me", "Evening", "c c", ""]),
-                  ojm_file=r.choice(["o2ma100.ojm", "x.ojm"]), duration=[r.randint(30, 300) for _ in range(3)],
+                  title=r.choice(ASCII_T + OJN_LEFTOVER), artist=r.choice(ASCII_T + OJN_LEFTOVER + ["A" * 32]),
+                  creator=r.choice(["me", "Evening", "c c", "", "ab\x00de", "0123456789abcdef0123456789abcdef"]),
+                  ojm_file=r.choice(["o2ma100.ojm", "x.ojm", "x.ojm\x00a100.ojm"]), duration=[r.randint(30, 300) for _ in range(3)],
                   old_genre=b"", bmp_size=r.choice([0, 8000]), old_song_id=r.choice([0, 12]))
     return dict(header=header, levels=levels)
 
 
 ASCII_T = ["Song", "A B", "x", "Title 1", "Caravan", "Escapes!", "q-w_e", "Take"]
+# real files re-use the buffer: text of an earlier, longer value (or garbage) follows the terminator
+OJN_LEFTOVER = ["Moonlight\x00Sonata (Long Ver.)", "Fly Magpie!\x00\xdf\x12ab", "x\x00\x00y", "\x00hidden", "caf\xe9 au lait"]
 
 
 # ---------------------------------------------------------------- C09: osu / Quaver sources on integer milliseconds AND on the snap grid
